@@ -309,6 +309,31 @@ fn run(name: &str, args: &[String]) -> Option<String> {
             let n = dec(&args[0]);
             Some((0..n).map(|i| hex::encode(sk_of(i).public_key().to_bytes())).collect::<Vec<_>>().join(","))
         }
+        "cond.offkeys" => {
+            // N encodings of points ON the curve but OUTSIDE the prime-order subgroup (found by search through the
+            // unchecked parser): to_key must reject them although they decompress fine
+            let n = dec(&args[0]) as usize;
+            let mut out: Vec<String> = vec![];
+            let mut c: u32 = 0;
+            while out.len() < n && c < 100000 {
+                let mut b = [0u8; 48];
+                let mut seed = (c as u64).wrapping_mul(0x9e3779b97f4a7c15) ^ 0x5851f42d4c957f2d;
+                for x in b.iter_mut() {
+                    seed ^= seed << 13;
+                    seed ^= seed >> 7;
+                    seed ^= seed << 17;
+                    *x = (seed >> 24) as u8;
+                }
+                b[0] = 0x80 | (b[0] & 0x2f);
+                if let Ok(p) = PublicKey::from_bytes_unchecked(&b) {
+                    if !p.is_valid() && !p.is_inf() {
+                        out.push(hex::encode(p.to_bytes()));
+                    }
+                }
+                c += 1;
+            }
+            Some(if out.is_empty() { "-".into() } else { out.join(",") })
+        }
         "cond.keyvalid" => {
             // is this 48-byte string a valid, non-infinity public key (what to_key accepts)?
             let b = hx(&args[0]);
